@@ -299,6 +299,55 @@ pub fn gen_raw_ack(r: &mut Rng) -> Vec<u8> {
     v
 }
 
+/// A burst of otherwise harmless packets whose sequence numbers open more than 64 separate acknowledgement
+/// ranges at the receiver: appended at the end, prepended at the front, or inserted between an old anchor and a
+/// much newer sequence, in any order.
+fn gen_ack_range_burst(r: &mut Rng, dst: &Side) -> Vec<Vec<u8>> {
+    let unrel = dst.recv.iter().find(|c| c.ty == 0).map(|c| c.id);
+    let mk = |seq: u64| -> Vec<u8> {
+        let mut v = vec![];
+        match unrel {
+            Some(ch) => {
+                v.push(1u8);
+                put_varint(&mut v, seq);
+                v.push(ch);
+                v.extend_from_slice(&0u16.to_be_bytes());
+            }
+            None => {
+                // an ack of a sequence this endpoint never used
+                v.push(4u8);
+                put_varint(&mut v, seq);
+                put_varint(&mut v, (1 << 61) + seq);
+                put_varint(&mut v, 0);
+                put_varint(&mut v, 0);
+            }
+        }
+        v
+    };
+    let step = *r.pick(&[2u64, 3, 1 << 31]);
+    let count = r.range(66, 160);
+    let base = r.below(1000);
+    let mut seqs: Vec<u64> = (1..=count).map(|i| base + i * step).collect();
+    let mut out = vec![];
+    match r.below(3) {
+        0 => {}
+        1 => seqs.reverse(),
+        _ => {
+            // anchor, newest, then the ones in between, shuffled
+            out.push(mk(base));
+            out.push(mk(base + (count + 1) * step));
+            for i in (1..seqs.len()).rev() {
+                let j = r.below(i as u64 + 1) as usize;
+                seqs.swap(i, j);
+            }
+        }
+    }
+    for s in seqs {
+        out.push(mk(s));
+    }
+    out
+}
+
 fn gen_hostile_raw(r: &mut Rng, dst: &Side) -> Vec<u8> {
     if r.chance(1, 6) {
         return gen_raw_ack(r);
@@ -368,8 +417,17 @@ pub fn gen_pair(r: &mut Rng, g: &PairGen) -> Vec<Tree> {
             }
             6 => ops.push(op_status(sides[s].ep)),
             7 => {
-                let raw = gen_hostile_raw(r, &sides[s]);
-                ops.push(op_raw(sides[s].ep, &raw));
+                if r.chance(1, 40) {
+                    for raw in gen_ack_range_burst(r, &sides[s]) {
+                        ops.push(op_raw(sides[s].ep, &raw));
+                    }
+                    ops.push(op_flush(sides[s].ep));
+                    sides[s].nout += 2;
+                    ops.push(op_status(sides[s].ep));
+                } else {
+                    let raw = gen_hostile_raw(r, &sides[s]);
+                    ops.push(op_raw(sides[s].ep, &raw));
+                }
             }
             8 => {
                 if sides[o].nout > 0 {
